@@ -273,19 +273,24 @@ func (k Keeper) OnAcknowledgementOutgoingInFlightPacket(
 	}
 
 	// The pattern of waitingPacket.Return == nil is not handled here
-	switch incomingPacket.Change.(type) {
+	// Only the leg that was waiting for this very packet is resolved by its acknowledgement
+	switch packetChange := incomingPacket.Change.(type) {
 	case *types.IncomingInFlightPacket_OutgoingIndexChange:
-		incomingPacket.Change = &types.IncomingInFlightPacket_AckChange{
-			AckChange: acknowledgement,
+		if packetChange.OutgoingIndexChange.Equal(outgoingPacket.Index) {
+			incomingPacket.Change = &types.IncomingInFlightPacket_AckChange{
+				AckChange: acknowledgement,
+			}
 		}
 		// case *types.IncomingInFlightPacket_AckChange:
 	}
 
 	// The pattern of waitingPacket.Forward == nil is not handled here
-	switch incomingPacket.Forward.(type) {
+	switch packetForward := incomingPacket.Forward.(type) {
 	case *types.IncomingInFlightPacket_OutgoingIndexForward:
-		incomingPacket.Forward = &types.IncomingInFlightPacket_AckForward{
-			AckForward: acknowledgement,
+		if packetForward.OutgoingIndexForward.Equal(outgoingPacket.Index) {
+			incomingPacket.Forward = &types.IncomingInFlightPacket_AckForward{
+				AckForward: acknowledgement,
+			}
 		}
 		// case *types.IncomingInFlightPacket_AckForward:
 	}
@@ -335,10 +340,31 @@ func (k Keeper) OnTimeoutOutgoingInFlightPacket(
 		}
 
 		// Set the new sequence number
+		oldIndex := outgoingPacket.Index
 		outgoingPacket.Index.Sequence = sequence
 		err = k.SetOutgoingInFlightPacket(ctx, outgoingPacket)
 		if err != nil {
 			return err
+		}
+
+		// The waiting packet must follow the re-sent packet, otherwise neither its
+		// acknowledgement nor its final timeout would ever resolve the leg
+		waitingPacket, found, err := k.GetIncomingInFlightPacket(ctx, outgoingPacket.AckWaitingIndex.PortId, outgoingPacket.AckWaitingIndex.ChannelId, outgoingPacket.AckWaitingIndex.Sequence)
+		if err != nil {
+			return err
+		}
+		if found {
+			newIndex := outgoingPacket.Index
+			if c, ok := waitingPacket.Change.(*types.IncomingInFlightPacket_OutgoingIndexChange); ok && c.OutgoingIndexChange.Equal(oldIndex) {
+				waitingPacket.Change = &types.IncomingInFlightPacket_OutgoingIndexChange{OutgoingIndexChange: &newIndex}
+			}
+			if f, ok := waitingPacket.Forward.(*types.IncomingInFlightPacket_OutgoingIndexForward); ok && f.OutgoingIndexForward.Equal(oldIndex) {
+				waitingPacket.Forward = &types.IncomingInFlightPacket_OutgoingIndexForward{OutgoingIndexForward: &newIndex}
+			}
+			err = k.SetIncomingInFlightPacket(ctx, waitingPacket)
+			if err != nil {
+				return err
+			}
 		}
 	} else {
 		// If remaining retry count is zero:
